@@ -46,7 +46,7 @@ def oracle(ops, records, listener, armed_before):
         if before is None:
             continue
         f0, f1 = before["flags"], o["flags"]
-        held0 = before["rid"].rstrip("au!")
+        held0 = before["rid"].rstrip("atu!")
         # faults that fired during this step
         fired = list(armed_before[i])
         for x in (armed_before[i + 1] if i + 1 < len(armed_before) else []):
@@ -76,7 +76,7 @@ def oracle(ops, records, listener, armed_before):
                 stale.add(held0)
                 stale.update(x for x in before["idle"].split(",") if x not in ("-", "N", "?"))
         # (b) connections opened before the failure are not reused
-        held1 = o["rid"].rstrip("au!")
+        held1 = o["rid"].rstrip("atu!")
         if held1 != "x" and held1 in stale:
             return ("c27-oracle", i, "step %d (%s): DBAPI connection #%s, opened before a disconnect was detected, is in use again" % (i, tok, held1))
         blocked = f0[3] == "1" and before["transaction"] != "N" and f0[2] == "0"
@@ -106,7 +106,7 @@ def oracle(ops, records, listener, armed_before):
             return ("c27-oracle", i, "step %d: begin() succeeded while transaction object #%s was still attached" % (i, before["transaction"]))
         # (e) errors not classified as disconnects leave the pool untouched
         if res in ("OE", "IE") and held0 != "x" and f0[2] == "0" and not handler_disc:
-            if o["idle"] != before["idle"] or o["rid"].rstrip("au!") != held0 or f1[3] != f0[3]:
+            if o["idle"] != before["idle"] or o["rid"].rstrip("atu!") != held0 or f1[3] != f0[3]:
                 return ("c27-oracle", i, "step %d (%s) raised the non-disconnect error %s but pool/connection changed: idle %s -> %s, held %s -> %s" % (i, tok, res, before["idle"], o["idle"], before["rid"], o["rid"]))
         # (g) no savepoint object stays current once the transaction is gone
         if o["transaction"] == "N" and o["nested"] != "N" and f1[2] == "0":
